@@ -339,6 +339,21 @@ def fixed_lazy_cases():
                       {'op': 'make', 'e': getattr_(const({'res': 1}), 'y'), 'pickle': True},
                       {'op': 'make', 'e': getitem_(const({'res': 1}), V_str('x')), 'pickle': False},
                       {'op': 'make', 'e': getattr_(const({'res': 1}), 'z'), 'pickle': False}]})
+  # a cached / held value that IS None is a value like any other, not a miss (seeded change C17-m7): the cached call is
+  # evaluated once (the counter inside it does not advance again), a handle holding None dereferences to None
+  none = const(None)
+  gn = call('getitem', [call('pair', [none, call('counter', [])]), const(V_int(0))], cache=True)
+  for pk in (False, True):
+    out.append({'kind': 'lazy', 'level': 'A', 'fn_max': 2, 'obj_max': 2,
+                'ops': [{'op': 'make', 'e': gn, 'pickle': pk}, {'op': 'make', 'e': gn, 'pickle': False},
+                        {'op': 'make', 'e': gn, 'pickle': pk}, {'op': 'make', 'e': call('counter', []), 'pickle': False},
+                        {'op': 'make', 'e': call('ident', [none], cache=True), 'pickle': pk},
+                        {'op': 'make', 'e': call('ident', [none], cache=True), 'pickle': False}]})
+  hn = call('ident', [none], lazy=True)
+  out.append({'kind': 'lazy', 'level': 'B', 'fn_max': 2, 'obj_max': 2,
+              'ops': [{'op': 'make', 'e': hn, 'pickle': False}, {'op': 'make', 'e': const({'res': 0}), 'pickle': False},
+                      {'op': 'make', 'e': call('pair', [const({'res': 0}), one]), 'pickle': False},
+                      {'op': 'make', 'e': const({'res': 0}), 'pickle': True}]})
   lz = call('pair', [one, two], lazy=True)
   out.append({'kind': 'lazy', 'level': 'C', 'fn_max': 2, 'obj_max': 3,
               'ops': [{'op': 'make', 'e': call('ident', [lz]), 'pickle': False},
